@@ -129,7 +129,17 @@ impl Prop for PGlob {
         o
     }
 
-    fn gen(&mut self, rng: &mut Rng, _idx: usize, tier: &str) -> Value {
+    fn gen(&mut self, rng: &mut Rng, idx: usize, tier: &str) -> Value {
+        if idx % 60 == 13 {
+            // case folding is per character: "ss" is not "\u{df}", "s" is not "\u{17f}" (long s), "k" is not the Kelvin sign
+            let (pat, subjects): (&str, Vec<&str>) = match (idx / 60) % 3 {
+                0 => ("ss", vec!["\u{df}", "ss", "SS", "sS", "s", "\u{1e9e}"]),
+                1 => ("s", vec!["\u{17f}", "s", "S", "ss"]),
+                _ => ("*k*", vec!["\u{212a}", "k", "K", "ak\u{e9}", "x"]),
+            };
+            let cps = |x: &str| x.chars().map(|c| c as u32).collect::<Vec<u32>>();
+            return json!({"pat": cps(pat), "fold": true, "subjects": subjects.iter().map(|x| cps(x)).collect::<Vec<_>>()});
+        }
         let lits: [u32; 14] = [97, 98, 99, 65, 66, 46, 47, 45, 33, 93, 10, 32, 233, 0x1F600];
         let maxp = if tier == "thorough" { 12 } else { 8 };
         let np = 1 + rng.below(maxp);
